@@ -85,6 +85,20 @@ def replay(case) -> dict:
     if err > 2e-3:
         i = tuple(int(x) for x in np.unravel_index(int(np.argmax(np.abs(tomo - want))), tshape))
         fails.append(dict(desc, clause="ExactPaste", maxerr=round(err, 4), at=list(i), observed=float(tomo[i]), expected=float(want[i])))
+    if cfg["second"] == "other_component":
+        # history: the second component is OVERWRITTEN by the same molecules with twice the density, on the simulator that has
+        # already simulated once; the next simulation must show the new component (the simulation is linear in the density)
+        sim_h = build()
+        np.asarray(sim_h.simulate(tshape))
+        sim_h.add_molecules(Molecules(p2_0[None, :]), (2.0 * tmpl).astype(np.float32), name="c1", overwrite=True)
+        want_h = _expected(tshape, tmpl, [case["paste1"]]) + 2.0 * _expected(tshape, tmpl, [case["paste2"]])
+        tomo_h = np.asarray(engine.api(sim_h.simulate, tshape), dtype=np.float64)
+        if float(np.max(np.abs(tomo_h - want_h))) > 4e-3:
+            fails.append(dict(desc, clause="OverwrittenComponentIsSimulated", maxerr=float(np.max(np.abs(tomo_h - want_h)))))
+        # simulating never changes the molecules it was given: a second simulation gives the same tomogram
+        again = np.asarray(engine.api(sim.simulate, tshape), dtype=np.float64)
+        if float(np.max(np.abs(again - tomo))) > 1e-5:
+            fails.append(dict(desc, clause="SimulationRepeatable", maxerr=float(np.max(np.abs(again - tomo)))))
     if cfg["second"] != "none":
         tomo_f = np.asarray(build(order_flip=True).simulate(tshape), dtype=np.float64)
         if float(np.max(np.abs(tomo_f - tomo))) > 1e-4:
